@@ -42,6 +42,7 @@ fn dup(r: &EndemicOTReceiver) -> Box<EndemicOTReceiver> { Box::new(unsafe { std:
 fn keys_hex(k: &[(Key, Key)]) -> String { k.iter().map(|(a, b)| format!("{}{}", hex::encode(a), hex::encode(b))).collect() }
 
 // ------------------------------------------------------------------------------------------------ sessions
+#[allow(dead_code)]
 pub struct EotSess { sid: Vec<u8>, ts: Vec<u8>, recv: Box<EndemicOTReceiver>, pub msg1: Vec<u8>, bits: Key, ta_hex: String, pub msg2: Vec<u8>, skeys: Vec<(Key, Key)>, dks: Vec<Key> }
 /// the draws of `EndemicOTReceiver::new` replayed with the same library calls: (choice bits, t_a list)
 fn eot_draws(rng: &mut TapeRng) -> (Key, Vec<Scalar>) {
@@ -69,6 +70,7 @@ fn get_eot(cx: &mut Cx, sid: &[u8], seed: u64) -> Option<Rc<EotSess>> {
     s
 }
 
+#[allow(dead_code)]
 pub struct PprfSess { sid: Vec<u8>, bits: Key, dks: Vec<Key>, pub out: Vec<u8>, ev: String }
 fn real_eval(sid: &[u8], bits: &Key, dks: &[Key], out: &[u8]) -> String {
     let r = catch_unwind(AssertUnwindSafe(|| {
@@ -96,6 +98,7 @@ fn get_pprf(cx: &mut Cx, sid: &[u8], seed: u64) -> Option<Rc<PprfSess>> {
     Some(s)
 }
 
+#[allow(dead_code)]
 pub struct SsSess { sid: Vec<u8>, s: Box<SenderOTSeed>, r: Box<ReceiverOTSeed>, choices: [u8; L_BYTES], tape: Vec<u8>, pub r1: Vec<u8> }
 fn get_ss(cx: &mut Cx, sid: &[u8], seed: u64) -> Option<Rc<SsSess>> {
     let ck = format!("{}:{seed}", hexw(sid));
@@ -117,6 +120,7 @@ fn get_ss(cx: &mut Cx, sid: &[u8], seed: u64) -> Option<Rc<SsSess>> {
     Some(sess)
 }
 
+#[allow(dead_code)]
 pub struct RvSess {
     ot: bool, sid: [u8; 32], a: [Scalar; 2], tape_s: Vec<u8>, seeds: Option<(Box<SenderOTSeed>, Box<ReceiverOTSeed>)>,
     /// round-one message: ext `Round1Output`, ot `RVOLEMsg1`
@@ -162,6 +166,42 @@ fn get_rv(cx: &mut Cx, ot: bool, sid: &[u8; 32], seed: u64) -> Option<Rc<RvSess>
     })).ok().flatten().map(Rc::new);
     match &s { Some(s) => { cx.rv.insert(ck, s.clone()); } None => cx.rep.notes.push(format!("rvole: honest {} session could not be built", if ot { "ot" } else { "ext" })) }
     s
+}
+
+/// another VALID round-one message of the OT extension for the same seeds: other choice bits, other padding tape
+fn alt_r1(sid: &[u8], s: &SenderOTSeed, choices: [u8; L_BYTES], tape: Vec<u8>) -> Option<Vec<u8>> {
+    catch_unwind(AssertUnwindSafe(|| {
+        let mut round1 = Round1Output::default();
+        let mut ext = bytemuck::allocation::zeroed_box::<ReceiverExtendedOutput>();
+        ext.choices = choices;
+        SoftSpokenOTReceiver::process(sid, s, &mut round1, &mut ext, &mut TapeRng::new(tape));
+        bytemuck::bytes_of(&round1).to_vec()
+    })).ok()
+}
+/// another VALID round-two message for the receiver of session `s`: the honest sender with other inputs / another tape
+fn alt_msg2(s: &RvSess, a: [Scalar; 2], tape: Vec<u8>) -> Option<Vec<u8>> {
+    catch_unwind(AssertUnwindSafe(|| {
+        let mut rng = TapeRng::new(tape);
+        if !s.ot {
+            let m: Box<Round1Output> = Box::new(bytemuck::pod_read_unaligned(&s.m1));
+            let mut out = Box::new(rvole::RVOLEOutput::default());
+            rvole::RVOLESender::process(&s.sid, &s.seeds.as_ref()?.1, &a, &m, &mut out, &mut rng).ok()?;
+            Some(bytemuck::bytes_of(&*out).to_vec())
+        } else {
+            let m: Box<otv::RVOLEMsg1> = Box::new(bytemuck::pod_read_unaligned(&s.m1));
+            let mut out = Box::new(otv::RVOLEMsg2::default());
+            otv::RVOLESender::process(&s.sid, &a, &m, &mut out, &mut rng).ok()?;
+            Some(bytemuck::bytes_of(&*out).to_vec())
+        }
+    })).ok().flatten()
+}
+/// another VALID round-one message for the sender of session `s` (extension variant): a receiver with another tape
+fn alt_round1_ext(s: &RvSess, tape: Vec<u8>) -> Option<Vec<u8>> {
+    catch_unwind(AssertUnwindSafe(|| {
+        let mut r1 = Box::new(Round1Output::default());
+        let _ = rvole::RVOLEReceiver::new(s.sid, &s.seeds.as_ref()?.0, &mut r1, &mut TapeRng::new(tape));
+        Some(bytemuck::bytes_of(&*r1).to_vec())
+    })).ok().flatten()
 }
 
 // ------------------------------------------------------------------------------------------------ exec
@@ -397,6 +437,9 @@ pub fn generate(cx: &mut Cx, rng: &mut ChaCha20Rng, round: u64) {
     if let (Some(s), Some(o)) = (get_ss(cx, &sid, seed), get_ss(cx, &sid, seed2)) {
         let mut cases = r1_mutations(rng, &s.r1);
         cases.push(("replay:other-run".into(), o.r1.clone(), false));
+        for (k, (name, ch, tp)) in [("valid:choices=0,tape=00", [0u8; L_BYTES], vec![0u8; PAD + 8]), ("valid:choices=1,tape=ff", [0xff; L_BYTES], vec![0xff; PAD + 8]), ("valid:other-choices", { let mut c = [0u8; L_BYTES]; rng.fill_bytes(&mut c); c }, { let mut t = vec![0u8; PAD + 8]; rng.fill_bytes(&mut t); t })].into_iter().enumerate() {
+            if let Some(m) = alt_r1(&sid, &s.s, ch, tp) { cases.push((name.into(), m, k == 0)); }
+        }
         { let mut m = s.r1.clone(); m[..U_BYTES].copy_from_slice(&o.r1[..U_BYTES]); cases.push(("splice:u-of-another-run".into(), m, false)); }
         // a deviating receiver whose guess of the sender's punctured index is right: accepted, not the honest message
         if thorough || round == 0 {
@@ -420,6 +463,10 @@ pub fn generate(cx: &mut Cx, rng: &mut ChaCha20Rng, round: u64) {
         let mut r = vec![0u8; s.msg2.len()]; rng.fill_bytes(&mut r); cases.push(("random".into(), r, true));
         cases.push(("all-00".into(), vec![0u8; s.msg2.len()], true)); cases.push(("all-ff".into(), vec![0xff; s.msg2.len()], true));
         cases.push(("replay:other-run".into(), o.msg2.clone(), true));
+        let qm1 = -Scalar::ONE;
+        let alts: Vec<(&str, [Scalar; 2], Vec<u8>)> = if !ot { vec![("valid:a=0,tape=00", [Scalar::ZERO; 2], vec![0u8; 64 * RHO + 8]), ("valid:a=q-1,tape=ff", [qm1; 2], vec![0xff; 64 * RHO + 8]), ("valid:a=(1,q-1)", [Scalar::ONE, qm1], { let mut t = vec![0u8; 64 * RHO + 8]; rng.fill_bytes(&mut t); t })] }
+            else { vec![("valid:a=(0,q-1),other-tape", [Scalar::ZERO, qm1], { let mut t = vec![0u8; 2 * 512 * 32 + 64 * RHO + 1024]; rng.fill_bytes(&mut t); t })] };
+        for (name, a, tape) in alts { if let Some(m) = alt_msg2(&s, a, tape) { cases.push((name.into(), m, true)); } }
         cases.extend(core_mutations(rng, &s.msg2, off, &o.msg2));
         if ot {
             let beta = s.beta.clone();
@@ -439,7 +486,11 @@ pub fn generate(cx: &mut Cx, rng: &mut ChaCha20Rng, round: u64) {
         for (name, m, model) in cases { cx.rep.hist(&format!("rvole-{v}.receiver:input:{name}")); cx.exec(&format!("c11 rvole recv {v} {s32} {sa} {}", hex::encode(&m)), model); }
         // sender
         let scases: Vec<(String, Vec<u8>, bool)> = if !ot {
-            let mut c = r1_mutations(rng, &s.m1); for x in c.iter_mut() { x.2 = x.0 == "valid" || x.0 == "random"; } c.push(("replay:other-run".into(), o.m1.clone(), false)); c
+            let mut c = r1_mutations(rng, &s.m1); for x in c.iter_mut() { x.2 = x.0 == "valid" || x.0 == "random"; } c.push(("replay:other-run".into(), o.m1.clone(), false));
+            for (k, (name, tape)) in [("valid:beta=0", vec![0u8; L_BYTES + PAD + 8]), ("valid:beta=1", vec![0xff; L_BYTES + PAD + 8]), ("valid:other-beta", { let mut t = vec![0u8; L_BYTES + PAD + 8]; rng.fill_bytes(&mut t); t })].into_iter().enumerate() {
+                if let Some(m) = alt_round1_ext(&s, tape) { c.push((name.into(), m, k == 2 && thorough)); }
+            }
+            c
         } else {
             let mut c: Vec<(String, Vec<u8>, bool)> = vec![("valid".into(), s.m1.clone(), true)];
             let mut r = vec![0u8; 2 * OT_MSG]; rng.fill_bytes(&mut r); c.push(("random".into(), r, false));
